@@ -114,6 +114,11 @@ type G struct {
 	paramFromGov map[string]bool
 	// badPct is the percentage of deliberately invalid variants in the random op streams.
 	badPct int
+	// rollbackEvery > 0: one delivered message in rollbackEvery is first sent inside a two-message transaction whose
+	// second message fails in its handler, so that the whole transaction is rolled back after the first message has
+	// run; the message is then delivered on its own.  Nothing of the rolled-back run may survive (C10), in
+	// particular nothing a keeper remembered outside the store.
+	rollbackEvery int
 }
 
 // traceFileName is the name of the trace file of history (family, n).
@@ -238,6 +243,15 @@ var knownPanics = map[string]bool{
 
 // Do delivers one message in its own transaction, records it and runs the monitors.
 func (g *G) Do(msg sdk.Msg, note string) chain.StepResult {
+	if (g.rollbackEvery > 0 || g.badPct > 0) && g.App.BlockOpen() && !strings.HasPrefix(note, "expect") {
+		every := g.rollbackEvery
+		if every == 0 {
+			every = 25
+		}
+		if g.R.Chance(1, every) {
+			g.rolledBack(msg, note)
+		}
+	}
 	pre := g.Rec.State()
 	res := g.Rec.Deliver(msg)
 	it := g.Rec.Last()
@@ -245,6 +259,22 @@ func (g *G) Do(msg sdk.Msg, note string) chain.StepResult {
 	g.account(it, res)
 	g.Chk.Step(pre, g.Rec.State(), it, []sdk.Msg{msg})
 	return res
+}
+
+// rolledBack delivers [msg, poison] as ONE transaction: poison passes ValidateBasic and fails in its handler (a seal
+// of a batch that does not exist), so everything msg wrote is discarded.
+func (g *G) rolledBack(msg sdk.Msg, note string) {
+	poison := g.App.MsgSealBatch(g.user(), "ZZZ999-999-20200101-20210101-999")
+	pre := g.Rec.State()
+	res := g.Rec.DeliverMulti([]sdk.Msg{msg, poison})
+	it := g.Rec.Last()
+	it.Note = "rolled back (second message of the transaction fails): " + note
+	g.account(it, res)
+	g.Chk.Step(pre, g.Rec.State(), it, []sdk.Msg{msg, poison})
+	g.bump("rolled-back-transaction")
+	if res.OK {
+		g.bump("rolled-back-transaction:UNEXPECTEDLY-OK")
+	}
 }
 
 func (g *G) account(it *chain.Item, res chain.StepResult) {
